@@ -217,6 +217,11 @@ def run_case(ctx, rep, spec, cn, posname, pos, fields, limit, serial, model, pat
     rep.case({"s": spec, "n": cn, "p": pos, "f": fields, "l": limit, "ser": serial, "cli": cli},
              nontrivial=(nlev >= 2 or not posname.startswith("L0:centre")))
     rep.count("pos:" + posname.split(":")[-1]); rep.count(f"normal:{cn}")
+    if cache is not None and not cli:
+        # the slices this very object made before are part of the case
+        hk = ("hist", path, repr(fields), limit, serial)
+        case["history"] = [list(h) for h in cache.get(hk, [])]
+        cache.setdefault(hk, []).append([cn, pos])
     try:
         if cache is not None:
             rep.count("reused-mandoline-object")
@@ -413,6 +418,20 @@ def run(ctx, rep, model=True):
                 if len(rep.violations) >= 12:
                     flush_model(rep, batch)
                     return
+        # one object, two planes in the same layer of cells beside a face between boxes, the farther one first
+        for cn in range(3):
+            g_ = spec["geo_low"][cn]; d0_ = spec["dx0"][cn]; N_ = spec["grid0"][cn]
+            for lv in range(nlev):
+                d_ = d0_ / 2 ** lv
+                faces = sorted(({b[0][cn] for b in spec["levels"][lv]} | {b[1][cn] + 1 for b in spec["levels"][lv]}) - {0, N_ * 2 ** lv})
+                for f in faces[:1]:
+                    x_ = g_ + f * d_
+                    for ser in (True, False):
+                        c2 = {}
+                        for nm, p_ in (("pair:face+3/4", x_ + 3 * d_ / 4), ("pair:face+1/4", x_ + d_ / 4),
+                                       ("pair:face-3/4", x_ - 3 * d_ / 4), ("pair:face-1/4", x_ - d_ / 4)):
+                            run_case(ctx, rep, spec, cn, f"L{lv}:{nm}", p_, [names[0], "grid_level"], None, ser, model, path, truth,
+                                     batch=batch, cache=c2)
         if i % 2 == 0:
             # the plotfile is rewritten at the same path (same mesh and layout, other values) and sliced again in this process
             import copy, shutil
@@ -445,6 +464,20 @@ def replay(ctx, rep, obj, model=True):
     c = obj["case"]
     batch = [] if model else None
     pos = c["pos"] if c.get("posname") != "default" else None
+    if c.get("history") and not c.get("previous"):
+        # the same object made other slices before
+        path = ctx.newdir("c07_"); truth = plotgen.materialize(c["spec"], path)
+        cache = {}
+        for cn_, pos_ in c["history"]:
+            try:
+                run_slice(path, c["fields"], c["limit"], c["serial"], cn_, pos_, None, cache)
+            except BaseException as e:
+                if isinstance(e, KeyboardInterrupt): raise
+        cache[("hist", path, repr(c["fields"]), c["limit"], c["serial"])] = [list(h) for h in c["history"]]
+        run_case(ctx, rep, c["spec"], c["normal"], c.get("posname", "?"), pos, c["fields"], c["limit"], c["serial"], model, path, truth,
+                 batch=batch, cache=cache)
+        flush_model(rep, batch)
+        return
     run_case(ctx, rep, c["spec"], c["normal"], c.get("posname", "?"), pos, c["fields"], c["limit"], c["serial"], model, batch=batch,
              cli=c.get("cli", False), previous=c.get("previous"))
     flush_model(rep, batch)
